@@ -4,6 +4,7 @@ import (
 	"bytes"
 	"fmt"
 	"io"
+	"reflect"
 	"strings"
 
 	"github.com/kstenerud/go-concise-encoding/ce"
@@ -340,6 +341,42 @@ func c07Marshal(c *fw.Ctx) {
 			m.MarshalToDocument(v)
 			return m.MarshalToDocument(v)
 		})
+		// the same instance used for the value, a pointer to it and what the pointer points to, in both orders
+		// (a failed first use must not leave anything behind that blocks or panics the next one)
+		rv := reflect.ValueOf(v)
+		var alt interface{}
+		if rv.Kind() == reflect.Ptr && !rv.IsNil() {
+			alt = rv.Elem().Interface()
+		} else {
+			p := reflect.New(rv.Type())
+			p.Elem().Set(rv)
+			alt = p.Interface()
+		}
+		for oi, order := range [][2]interface{}{{v, alt}, {alt, v}} {
+			order := order
+			c.Region(fmt.Sprintf("marshal-cfg%d-reuse-value-pointer-order%d", ci, oi))
+			c07Call(c, "NewCBEMarshaler.value-then-pointer", desc, func() (interface{}, error) {
+				m := ce.NewCBEMarshaler(cfg)
+				m.MarshalToDocument(order[0])
+				return m.MarshalToDocument(order[1])
+			})
+			c07Call(c, "NewCTEMarshaler.value-then-pointer", desc, func() (interface{}, error) {
+				m := ce.NewCTEMarshaler(cfg)
+				m.MarshalToDocument(order[0])
+				return m.MarshalToDocument(order[1])
+			})
+			c07Call(c, "NewCBEUnmarshaler.template-value-then-pointer", desc, func() (interface{}, error) {
+				u := ce.NewCBEUnmarshaler(cfg)
+				u.UnmarshalFromDocument([]byte{0x81, 0x00, 0x99, 0x9b}, order[0])
+				return u.UnmarshalFromDocument([]byte{0x81, 0x00, 0x99, 0x9b}, order[1])
+			})
+			c07Call(c, "NewCTEUnmarshaler.template-value-then-pointer", desc, func() (interface{}, error) {
+				u := ce.NewCTEUnmarshaler(cfg)
+				u.UnmarshalFromDocument([]byte("c0 {}"), order[0])
+				return u.UnmarshalFromDocument([]byte("c0 {}"), order[1])
+			})
+		}
+		c.Region(fmt.Sprintf("marshal-cfg%d", ci))
 		// and as a template for unmarshal
 		c07Call(c, "UnmarshalFromCBEDocument(template)", desc, func() (interface{}, error) {
 			return ce.UnmarshalFromCBEDocument([]byte{0x81, 0x00, 0x9a, 0x01, 0x9b}, v, cfg)
